@@ -443,6 +443,23 @@ def run_property(mod, tier, only=None):
                 results.append(r)
                 if r.get("error"):
                     errors.append("%s[%d]: %s" % (c.name, s, r["error"]))
+                if r.get("violation") and os.environ.get("VERIF_FAILFAST"):
+                    # sensitivity runs over many broken trees only need the verdict: stop the
+                    # remaining shards as soon as one shard has reported a violation
+                    pending = []
+                    for q, _c, _s, o in still + [x for x in running if x[0].poll() is None]:
+                        try:
+                            q.kill()
+                            q.wait()
+                        except OSError:
+                            pass
+                        for fn in (o, o + ".log"):
+                            try:
+                                os.remove(fn)
+                            except OSError:
+                                pass
+                    still = []
+                    break
             else:
                 errors.append("%s[%d]: worker died (rc=%s): %s" % (c.name, s, p.returncode,
                                                                    text[-2000:]))
